@@ -87,14 +87,14 @@ def regrid_case(draw):
     return dict(fg=fg, dg=dg, dims=dims, specs=specs, dtype=draw(st.sampled_from(["float64", "float32"])), lived=draw(gen.lived()),
                 tf=draw(target_freq(fg["f"])) if what in ("freq", "both") else None,
                 td=draw(target_dir(sorted(dg["d"]))) if what in ("dir", "both") else None,
-                m0=draw(st.booleans()), dup=draw(st.integers(0, 4)) == 0, as_list=draw(st.booleans()),
+                m0=draw(st.booleans()), dup=draw(st.integers(0, 4)) == 0, as_list=draw(st.booleans()), cdtype=draw(gen.coord_dtypes()),
                 via=draw(st.sampled_from(["interp", "interp", "interp_like", "interp_like_dataset", "regrid_spec", "dataset"])))
 
 
 def _source(case):
     import xarray as xr
 
-    da = gen.build_dataarray(case["fg"], case["dg"], case["specs"], case["dims"], dtype=case["dtype"], lived=case.get("lived"))
+    da = gen.build_dataarray(case["fg"], case["dg"], case["specs"], case["dims"], dtype=case["dtype"], lived=case.get("lived"), cdtype=case.get("cdtype"))
     lowest = float(np.min(da.dir.values))
     dup = bool(case.get("dup")) and ((lowest + 360.0) % 360.0 == lowest)
     if dup:
@@ -143,8 +143,9 @@ def check_regrid(case, ctx):
     from .c01 import _positions
 
     da, dup = _source(case)
-    f = np.array(case["fg"]["f"])
+    f = np.asarray(da.freq.values, dtype=float)  # the coordinates as stored (float32 storage rounds them)
     sd = np.asarray(da.dir.values, dtype=float)
+    ctx.label("coords=" + str(da.freq.dtype) + "/" + str(da.dir.dtype))
     tf = case["tf"]["f"] if case["tf"] else None
     td = case["td"]["d"] if case["td"] else None
     kw = {}
@@ -191,6 +192,8 @@ def check_regrid(case, ctx):
     if np.any(above) and np.any(out.isel(freq=np.nonzero(above)[0]).values != 0):
         raise Violation("above-fmax", "energy above the highest source frequency %r" % f.max())
     rt = 1e-9 if case["dtype"] == "float64" else 2e-5
+    if da.freq.dtype == np.float32 or da.dir.dtype == np.float32:
+        rt = 2e-5  # weights and bin widths are then evaluated in single precision
     same_grid = (tf is None or list(tf) == list(f)) and (td is None or sorted(td) == sorted((sd % 360.0).tolist()) and not dup)
     sdd = 360.0 / case["dg"]["n"]
     odd = R.dd_partial(od)
@@ -208,7 +211,7 @@ def check_regrid(case, ctx):
                 raise Violation("identity", "interpolating onto the source grid changed the spectrum at %s (max rel diff %r)" % (dict(zip(lead, idx)), float(np.max(np.abs(O[:, oi] - E) / np.maximum(np.abs(E), 1e-300)))))
         want = ref_regrid(E, f, sd, tf, td)
         if not case["m0"]:
-            scale = max(np.abs(want).max(), 1e-300)
+            scale = max(np.abs(want).max(), np.abs(E).max(), 1e-300)  # rounding of the weights is relative to the source values
             if not np.all(np.abs(O - want) <= 4 * rt * scale + 1e-12 * scale):
                 i, j = np.argwhere(np.abs(O - want) > 4 * rt * scale + 1e-12 * scale)[0]
                 raise Violation("bilinear", "bin (f=%r, dir=%r): %r, circular bilinear interpolation of the neighbouring source bins gives %r at %s" % (of[i], od[j], O[i, j], want[i, j], dict(zip(lead, idx))))
@@ -241,15 +244,16 @@ def rot_case(draw):
     dims = draw(gen.extra_dims(maxdims=1, maxsize=3))
     npos = int(np.prod([n for _, n in dims])) if dims else 1
     specs = [draw(gen.spectrum(kinds=("multinoisy", "multi", "sparse", "zero"))) for _ in range(min(npos, 3))]
-    return dict(fg=fg, dg=dg, dims=dims, specs=specs, dtype=draw(st.sampled_from(["float64", "float32"])), lived=draw(gen.lived()),
+    return dict(fg=fg, dg=dg, dims=dims, specs=specs, dtype=draw(st.sampled_from(["float64", "float32"])), lived=draw(gen.lived()), cdtype=draw(st.sampled_from(["f64", "f64", "int-dir"])),
                 kind=draw(st.sampled_from(["bin", "bin", "360", "any", "any"])), k=draw(st.integers(-20, 20)), a=draw(st.floats(-720, 720)))
 
 
 def check_rotate(case, ctx):
     from .c01 import _positions
 
-    da = gen.build_dataarray(case["fg"], case["dg"], case["specs"], case["dims"], dtype=case["dtype"], lived=case.get("lived"))
+    da = gen.build_dataarray(case["fg"], case["dg"], case["specs"], case["dims"], dtype=case["dtype"], lived=case.get("lived"), cdtype=case.get("cdtype"))
     f, d = np.array(case["fg"]["f"]), np.array(case["dg"]["d"])
+    ctx.label("dir-labels=" + str(da.dir.dtype))
     n = len(d)
     dd = 360.0 / n
     a = {"bin": case["k"] * dd, "360": 360.0 * (1 if case["k"] >= 0 else -1), "any": case["a"]}[case["kind"]]
